@@ -44,13 +44,22 @@ var rootSeeds = []string{
 	"[\r\n 1,\r\n 2 // {min: 2}\r\n]",
 	"12 // just a note",
 	"{\"a\": 1 // {serializeFormat: \"json\"}\n}",
+	// allOf expansion: parents that are objects, scalars, unknown, recursive; keys that collide
+	"{ // {allOf: \"@a\"}\n}", "{ // {allOf: \"@zz\"}\n \"q\": 1\n}", "{ // {allOf: \"@o\"}\n \"o\": 2\n}",
+	"{ // {allOf: [\"@o\", \"@b\"]}\n}", "{ // {allOf: []}\n}", "{\n \"p\": { // {allOf: \"@a\"}\n }\n}",
+	"{ // {allOf: \"@o\", additionalProperties: \"string\"}\n \"w\": [ // {allOf: \"@o\"}\n ]\n}",
+	// or-types that refer to each other
+	"{\"v\": @a}", "[@a | @o, @b]", "{\"v\": @b // {optional: true}\n}",
 }
 
 var typeSeeds = []string{`1`, `"s"`, `{"o": 1}`, `[1]`, `@b`, `@a | @b`, "{\n\"r\": @a // {optional: true}\n}", `"k" // {regex: "k+"}`,
 	"{\n \"s\": @a\n}", "[@a]", "{ // {allOf: \"@b\"}\n \"t\": 1\n}", "1 // {enum: @e}", "{\n @k: @b\n}", "1 // {or: [\"@a\", \"@b\"]}",
 	"{\"o\": 1, \"p\": \"x\" // {optional: true}\n}", "\"s\" // {minLength: 1}", ``, ` `, "# only a comment",
 	// inheritance between added types; errors far from the start of the donor's text
-	"{ // {allOf: \"@b\"}\n}", "{ // {allOf: [\"@b\", \"@o\"]}\n}",
+	"{ // {allOf: \"@b\"}\n}", "{ // {allOf: [\"@b\", \"@o\"]}\n}", "{ // {allOf: \"@a\"}\n}", "{\"o\": 2}",
+	"{ // {additionalProperties: \"integer\"}\n \"o\": 3\n}",
+	// or-types referring to each other, with and without an alternative that ends the chain
+	"@b | @o", "@a | @o", "@o | @a | @b", "@b|@b", "[@a | @b]", "{\"n\": @a | @o // {optional: true}\n}",
 	"{\n\n\n\n\n\n\n\n\n\n\n\n\n\n\n\n \"k\": 1 // {min: 2}\n}", "\n\n\n\n\n\n\n\n\n\n\n\n\n\n\n\n{\n @zz: 1,\n \"u\": @zz | @a\n}",
 	"                    @zz | @a", "[\n\n\n\n\n\n\n\n\n\n\n\n 1 // {or: [{type: \"@zz\"}, \"string\"]}\n]"}
 
@@ -96,6 +105,7 @@ type gen struct {
 	r      *rand.Rand
 	budget int  // remaining nodes
 	wild   bool // allow deliberately wrong rules
+	few    bool // keys from a two-element pool without index suffix: objects and their allOf parents share keys
 }
 
 var typeNames = []string{"@a", "@b", "@o", "@k", "@rg", "@a", "@b", "@zz"}
@@ -124,6 +134,9 @@ func (g *gen) str() string {
 }
 
 func (g *gen) key() string {
+	if g.few {
+		return g.pick("a", "b", "o")
+	}
 	if g.r.Intn(3) == 0 {
 		return g.str()
 	}
@@ -273,7 +286,11 @@ func (g *gen) write(sb *strings.Builder, depth int, ind, after string, isProp bo
 			if g.r.Intn(7) == 0 {
 				sb.WriteString(g.typeName())
 			} else {
-				sb.WriteString(`"` + g.key() + strconv.Itoa(i) + `"`)
+				if g.few { // distinct within the object, shared between objects
+					sb.WriteString(`"` + []string{"a", "b", "o", "p", "q"}[i%5] + `"`)
+				} else {
+					sb.WriteString(`"` + g.key() + strconv.Itoa(i) + `"`)
+				}
 			}
 			sb.WriteString(g.pick(": ", ":", " : "))
 			c := ","
@@ -303,7 +320,7 @@ func (g *gen) write(sb *strings.Builder, depth int, ind, after string, isProp bo
 }
 
 func genSchema(r *rand.Rand, maxBudget int) string {
-	g := &gen{r: r, budget: 1 + r.Intn(maxBudget), wild: r.Intn(3) == 0}
+	g := &gen{r: r, budget: 1 + r.Intn(maxBudget), wild: r.Intn(3) == 0, few: r.Intn(4) == 0}
 	var sb strings.Builder
 	if r.Intn(10) == 0 {
 		sb.WriteString(g.pick("# head\n", "###\nhead\n###\n", "\n\n", "  "))
